@@ -115,12 +115,57 @@ def c18_worker(kp, job):
     return {'records': records}
 
 
+def c18_mixed_worker(kp, job):
+    """documents with a **kern spine that splits / joins to the LEFT of two or more non-kern spines of different types
+    sharing one vocabulary: every cell of a non-kern spine is a token of THAT spine's type (own category, or the shared
+    structure), whatever stood in the same column before the spine paths shifted"""
+    seed, idx = job
+    rng = random.Random(seed * 334214467 + idx)
+    others = rng.sample(['**text', '**dynam', '**harm', '**fing', '**mxhm', '**dyn', '**silbe'], rng.randint(2, 3))
+    g = docs.gen_doc(rng, types=['**kern'] + others, measures=rng.randint(1, 3), rest_in_chord=0, nested=0.7)
+    text = g.text
+    bad = docs.bad_cells(kp, text)
+    viol = []
+    try:
+        doc, errs = kp.loads(text)
+        dump = 'ok:' + docs.impl_show_doc(kp, doc, errs)
+    except Exception as e:
+        return {'records': [engine.rec('mixed', impl='raise:' + type(e).__name__, req=('import', [C1.join(bad), text]),
+                                       viol=[('never-fails', f'a document with spines {others} does not import: {type(e).__name__}', {'text': text})],
+                                       kind='mixed', key=(text,))]}
+    TC = kp.TokenCategory
+    shared = set()
+    for p in ('STRUCTURAL', 'SIGNATURES', 'EMPTY', 'BARLINES', 'IMAGE_ANNOTATIONS', 'COMMENTS'):
+        shared |= {TC[p]} | TC.nodes(TC[p])
+    w = {'text': text}
+    for st in doc.tree.stages:
+        for nd in st:
+            if nd.token is None or nd.header_node is None or nd.header_node is nd:
+                continue
+            h = nd.header_node.token.encoding
+            if h not in OWN:
+                continue
+            c = nd.token.category
+            if c in shared:
+                continue
+            if type(nd.token).__name__ == 'ErrorToken':
+                viol.append(('never-fails', f'{h}: the cell {nd.token.encoding!r} is an ErrorToken', w))
+                break
+            if not (type(nd.token).__name__ == 'SimpleToken' and c.name == OWN[h]):
+                viol.append(('own-category', f'{h}: the cell {nd.token.encoding!r} became {type(nd.token).__name__}/{c.name}, expected SimpleToken/{OWN[h]}', w))
+                break
+    return {'records': [engine.rec('mixed', impl=dump, req=('import', [C1.join(bad), text]), viol=viol[:1], kind='mixed:' + ','.join(sorted(g.flags & {'split', 'join'})),
+                                   key=(text,), sample={'text': text} if idx % 31 == 0 else None)]}
+
+
 def c18_document_level(chk, b):
     model = core.Model() if b.modelrun_ok else None
     full = chk.tier == 'thorough' or bool(b.drift) or not b.proof_ok
     n = core.budget(chk, full, 14, 120)
     results = engine.pmap(c18_worker, [(chk.seed, i) for i in range(n)])
+    results += engine.pmap(c18_mixed_worker, [(chk.seed, i) for i in range(core.budget(chk, full, 60, 400))])
     engine.settle(chk, results, model)
-    chk.rule += ('; document level: generated **kern documents whose one column is presented under **text, **dynam, **dyn, **harm, '
+    chk.rule += ('; mixed documents: a **kern spine with splits / joins left of 2-3 non-kern spines of different types sharing one '
+                 'vocabulary, every cell a token of its own spine\'s type; document level: generated **kern documents whose one column is presented under **text, **dynam, **dyn, **harm, '
                  '**mxhm, **fing and an unknown type: same measure index, shared structure identical to the kern tokens, everything '
                  'else SimpleToken of the own category')
